@@ -237,7 +237,7 @@ func (client *client) isEnd(data *Message, ok bool) bool {
 	if !ok {
 		return true
 	}
-	if data.Data == nil && data.ID == 0 && data.Ty == 0 {
+	if data == closeSentinel {
 		return true
 	}
 	if atomic.LoadInt32(&client.isClosed) == 1 {
